@@ -21,7 +21,8 @@ EXPLANATION = (
     "(DESIGN Appendix E): in the canonical product of each law, descending into the taken arm of `c ? x : 0.0`, the physically fixed "
     "dependences are present with the right exponent and sign, whatever model-specific prefactors surround them, and every model switch "
     "multiplies its own process only; R6 the C constant eb_<alias> those templates read is defined for every surface species from that "
-    "species' own binding energy, printed unformatted.")
+    "species' own binding energy, printed unformatted; R7 the built-in table reader keys a record by its whole first token (neutral and anion rows "
+    "stay apart) and stores float(second token).")
 ASSUMPTIONS = [
     "numerical prefactors and model-specific coverage factors of Hasegawa & Herbst 1993 / Roberts et al. 2007 are NOT decided (needs an independent transcription of the models)",
     "registry closure of the symbols used is C10",
@@ -32,6 +33,9 @@ SPECIES = "naunet/species.py"
 REAC = ("param", "reac")
 
 
+TEMPS = {"rate_depletion": {"R_temperature"}, "rate_recombination": {"R_temperature"}, "rate_electron_capture": {"R_temperature"},
+         "rate_thermal_desorption": {"R_dust_temperature"}, "_rate_surface": {"R_dust_temperature"}, "rate_surface_twobody": {"R_dust_temperature"},
+         "rate_reactive_desorption": {"R_dust_temperature"}, "rate_cosmicray_desorption": set(), "rate_photon_desorption": set(), "rate_h2_desorption": set()}
 GRAIN_REACTANT = {"rate_recombination", "rate_electron_capture"}     # reactions with the grain itself among the reactants
 
 
@@ -157,6 +161,85 @@ def check(ctx):
     _r2_r5(ctx, rm, pkg)
     _r3(ctx, pkg)
     _r6(ctx)
+    _r7(ctx, pkg)
+
+
+CHEMDATA = "naunet/chemistrydata/__init__.py"
+
+
+def _r7(ctx, pkg):
+    """Built-in table (last stage of the binding-energy lookup): the key of a record is its first blank-separated token WHOLE
+    (the table has neutrals and their anions, `OH` and `OH-`, with different energies), the value float(second token)."""
+    fn = pkg.func(CHEMDATA, "_read_binding_energy")
+    if fn is None:
+        ctx.missing("R7", "_read_binding_energy", (CHEMDATA, 0), "reader of the built-in binding-energy table vanished")
+        return
+    ctx.saw(CHEMDATA, "_read_binding_energy")
+    fl = Flow(fn, CHEMDATA)
+    ret = [simp(f.value) for f in fl.facts if f.kind == "return"]
+    acc = ret[0][1] if len(ret) == 1 and ret[0][0] == "acc" else None
+    writes = [f for f in fl.facts if f.target == acc and f.kind in ("mutate", "store")]
+    ok = False
+    found = ""
+    regex_key = None
+    for f in writes:
+        kv = None
+        v = simp(f.value) if f.value else None
+        if f.kind == "mutate" and v and v[0] == "dict" and len(v[1]) == 1:
+            kv = v[1][0]
+        elif f.kind == "store" and f.index is not None:
+            kv = (simp(f.index), v)
+        if kv:
+            k, val = kv
+            found = f"{show(k)[:70]} : {show(val)[:50]}"
+            is_tok = lambda x, i: x[0] == "item" and x[2] == i and x[1][0] == "meth" and x[1][2] == "split" and not x[1][3]
+            ok = is_tok(k, 0) and val[0] == "call" and val[1] == ("global", "float") and is_tok(val[2][0], 1) and k[1] == val[2][0][1]
+            if not ok and k[0] in ("sub", "meth") and "match" in show(k):
+                regex_key = k
+    if not ok and regex_key is not None:
+        # the key comes out of a regular expression: its group must admit the charge signs
+        import re._parser as sp
+        pats = [n.args[0].value for n in ast.walk(pkg.modules[CHEMDATA]) if isinstance(n, ast.Call) and ast.unparse(n.func) in ("re.compile", "re.match", "re.search")
+                and n.args and isinstance(n.args[0], ast.Constant) and isinstance(n.args[0].value, str)]
+        admits = False
+        for pat in pats:
+            try:
+                tree_ = sp.parse(pat)
+            except Exception:
+                continue
+            for op, av in tree_:
+                if op is sp.SUBPATTERN:
+                    chars = set()
+                    def collect(seq):
+                        for o, a in seq:
+                            if o is sp.LITERAL:
+                                chars.add(chr(a))
+                            elif o is sp.IN:
+                                for oo, aa in a:
+                                    if oo is sp.LITERAL:
+                                        chars.add(chr(aa))
+                                    elif oo is sp.RANGE:
+                                        chars.update(chr(c) for c in range(aa[0], min(aa[1], aa[0] + 128) + 1))
+                                    elif oo is sp.CATEGORY and aa is sp.CATEGORY_NOT_SPACE:
+                                        chars.update("+-")
+                            elif o in (sp.MAX_REPEAT, sp.MIN_REPEAT):
+                                collect(a[2])
+                            elif o is sp.SUBPATTERN:
+                                collect(a[3])
+                            elif o is sp.CATEGORY and a is sp.CATEGORY_NOT_SPACE:
+                                chars.update("+-")
+                    collect(av[3])
+                    admits = {"+", "-"} <= chars
+                    break
+        ctx.check(admits, "R7", "built-in table:key", (CHEMDATA, fn.lineno),
+                  "the key group of the record expression admits the charge signs" if admits else
+                  "the species key is cut out of the record by a regular expression whose group stops before the charge sign: the rows of anions (H-, C-, O-, OH-, CN-, S-) are "
+                  "stored under the neutral's name and overwrite it (OH 2850 K -> 1260 K): every rate of that ice species uses the anion's binding energy",
+                  expected="key = first blank-separated token of the record", found=found)
+        return
+    ctx.check(ok, "R7", "built-in table:key", (CHEMDATA, writes[0].line if writes else fn.lineno),
+              "key = first token of the record, value = float(second token)" if ok else "the record is not stored as {first token: float(second token)}",
+              expected="elem, eb, *_ = line.split(); table[elem] = float(eb)", found=found)
 
 
 CONST_C = "naunet/templates/base/cpp/src/naunet_constants.cpp.j2"
@@ -329,6 +412,17 @@ def _r2_r5(ctx, rm, pkg):
                 elif kind == "guard":
                     ok = any(re.search(req[1], g) for g in guards)
                     ctx.check(ok, "R5", f"{vkey}:guard {req[1]}", (v.file, v.line), f"guarded by {req[1]}", found=str(guards))
+            # which temperature the law is evaluated at is part of the law: gas temperature for what arrives from the gas
+            # (accretion, recombination, electron capture), dust temperature for everything that happens on the surface
+            temps = {nm for nm in names.values() if nm in ("R_temperature", "R_dust_temperature")}
+            wantT = TEMPS.get(mname)
+            if wantT is not None:
+                nsig += 1
+                ctx.check(temps <= wantT, "R5", f"{vkey}:temperature", (v.file, v.line),
+                          f"evaluated at {sorted(temps) or 'no'} temperature" if temps <= wantT else
+                          f"the law uses {sorted(temps - wantT)}: a {'surface' if 'R_dust_temperature' in wantT else 'gas-arrival'} process is evaluated at the "
+                          f"{'gas' if 'R_temperature' in temps - wantT else 'dust'} temperature (the two differ by orders of magnitude in the Boltzmann factors whenever Tgas != Tdust)",
+                          expected=str(sorted(wantT)), found=str(sorted(temps)))
             # switches of other processes must not appear
             own = {r[1] for r in reqs if r[0] == "all" and r[1] in SWITCHES}
             foreign = [s for s in SWITCHES - own if any(exp_of(m, s) != 0 for m in c.terms)]
@@ -412,6 +506,9 @@ HH = "naunet/grains/hh93grain.py"
 RR = "naunet/grains/rr07grain.py"
 GR = "naunet/grains/grain.py"
 MUTANTS = [
+    {"name": "binding-table-key-truncated", "file": "naunet/chemistrydata/__init__.py", "old": "                binding_energy.update({elem: float(eb)})", "new": "                binding_energy.update({elem.rstrip('+-'): float(eb)})", "rules": ["R7"]},
+    {"name": "binding-table-third-column", "file": "naunet/chemistrydata/__init__.py", "old": "                elem, eb, *other = line.split()", "new": "                elem, _, eb, *other = line.split()", "rules": ["R7"]},
+    {"name": "surface-barrier-at-gas-temperature", "file": HH, "old": '        kappa = f"exp(-{a}/{tdust})"', "new": '        kappa = f"exp(-{a}/{reac.symbols.temperature.symbol})"', "rules": ["R5"]},
     {"name": "eb-const-rounded", "file": CONST_C, "old": "{{ s.eb }}", "new": '{{ "%.1f" | format(s.eb) }}', "rules": ["R6"]},
     {"name": "eb-const-int", "file": CONST_C, "old": "{{ s.eb }}", "new": "{{ s.eb | int }}", "rules": ["R6"]},
     {"name": "eb-const-not-for-all-ice", "file": CONST_C, "old": '{% for s in network.species | selectattr("is_surface") -%}\n{{ spec }} double eb_', "new": '{% for s in network.species | selectattr("is_surface") | rejectattr("is_atom") -%}\n{{ spec }} double eb_', "rules": ["R6"]},
